@@ -16,6 +16,7 @@ type Job struct {
 	Seed        uint64 `json:"seed,omitempty"`
 	Profile     string `json:"profile,omitempty"`
 	Entry       string `json:"entry,omitempty"` // "" = manual (exact quiescence) | "init" (InitializeProcesses, 50ms heartbeat)
+	ReuseEnv    bool   `json:"reuse_env,omitempty"` // entry init: run on the worker's one long-lived RuntimeEnvironment
 	NoTypecheck bool   `json:"no_typecheck,omitempty"`
 	EventBudget uint64 `json:"event_budget,omitempty"`
 	WatchdogMs  int    `json:"watchdog_ms,omitempty"`
